@@ -31,9 +31,32 @@ func ruleC02Nav(c *Ctx, r *Rep) {
 	}
 	info := vm.info
 	isGuard := func(cond ast.Expr) bool {
-		// !env.paths.empty() && env.expdepth == 0 (possibly with further conjuncts)
-		s := c.Src(cond)
-		return strings.Contains(s, ".paths.empty()") && strings.Contains(s, ".expdepth == 0") && strings.Contains(s, "!")
+		// !env.paths.empty() && env.expdepth == 0 (possibly with further conjuncts): a negated call of the path stack's
+		// empty method and a comparison of the bracket depth with 0, both conjuncts of the condition
+		notEmpty, depthZero := false, false
+		var walk func(e ast.Expr)
+		walk = func(e ast.Expr) {
+			e = unparen(e)
+			if b, ok := e.(*ast.BinaryExpr); ok && b.Op == token.LAND {
+				walk(b.X)
+				walk(b.Y)
+				return
+			}
+			if u, ok := e.(*ast.UnaryExpr); ok && u.Op == token.NOT {
+				if call, ok := unparen(u.X).(*ast.CallExpr); ok && vm.envMethod(call) == "paths.empty" {
+					notEmpty = true
+				}
+			}
+			if b, ok := e.(*ast.BinaryExpr); ok && b.Op == token.EQL {
+				if sel, ok := unparen(b.X).(*ast.SelectorExpr); ok && sel.Sel.Name == "expdepth" {
+					if v, ok := constInt(info, b.Y); ok && v == 0 {
+						depthZero = true
+					}
+				}
+			}
+		}
+		walk(cond)
+		return notEmpty && depthZero
 	}
 	isPathErr := func(e ast.Expr) bool {
 		u, ok := unparen(e).(*ast.UnaryExpr)
